@@ -73,6 +73,18 @@ const K = {
   multiDeclarator: (i, J) => `const md${i} = 1, me${i} = ${J}, mf${i} = 2;\n__out.k${i} = () => me${i};`,
   exportConst: (i, J) => `export const ex${i} = ${J};\n__out.k${i} = () => ex${i};`,
   exportFn: (i, J) => `export function ef${i}() { return ${J}; }\n__out.k${i} = () => ef${i}();`,
+  switchCaseBare: (i, J) => `let sc${i};\nswitch (0) { case 0: sc${i} = ${J}; break; default: sc${i} = null; }\n__out.k${i} = () => sc${i};`,
+  fnExpr: (i, J) => `const fe${i} = function () { return ${J}; };\n__out.k${i} = () => fe${i}();`,
+  namedFnExpr: (i, J) => `const nf${i} = function inner${i}() { return ${J}; };\n__out.k${i} = () => nf${i}();`,
+  classExpr: (i, J) => `const Ce${i} = class { m() { return ${J}; } };\n__out.k${i} = () => new Ce${i}().m();`,
+  taggedTpl: (i, J) => `const tt${i} = () => idt\`a\${${J}}b\`;\n__out.k${i} = () => tt${i}();`,
+  spreadArg: (i, J) => `const sa2${i} = () => idf(...[${J}]);\n__out.k${i} = () => sa2${i}();`,
+  optCallArg: (i, J) => `const oc${i} = () => idf?.(${J});\n__out.k${i} = () => oc${i}();`,
+  nullishAssign: (i, J) => `const nz${i} = () => { let z = null; z ??= ${J}; return z; };\n__out.k${i} = () => nz${i}();`,
+  memberAssign: (i, J) => `const ma${i} = {};\nma${i}.p = ${J};\n__out.k${i} = () => ma${i}.p;`,
+  nestedBlocks: (i, J) => `let nb${i};\n{ { nb${i} = ${J}; } }\n__out.k${i} = () => nb${i};`,
+  ifElse: (i, J) => `let ie${i};\nif (!c) { ie${i} = null; } else { ie${i} = ${J}; }\n__out.k${i} = () => ie${i};`,
+  forClassic: (i, J) => `const fc${i} = [];\nfor (let q = 0; q < 2; q++) fc${i}.push(${J});\n__out.k${i} = () => fc${i};`,
   // depth-2 contexts
   fnInArrow: (i, J) => `const a${i} = () => { function inner() { return ${J}; } return inner(); };\n__out.k${i} = () => a${i}();`,
   arrowInFn: (i, J) => `function f${i}() { const inner = () => ${J}; return inner(); }\n__out.k${i} = () => f${i}();`,
@@ -94,6 +106,13 @@ const D = {
   userCreateVNode: { once: true, tpl: (i) => `const _createVNode = 'user_createVNode';\n__out.k${i} = () => _createVNode;` },
   userFragment:{ once: true, group: 'fragname', tpl: (i) => `const _Fragment = 'user_Fragment';\n__out.k${i} = () => _Fragment;` },
   userIsVNode: { once: true, tpl: (i) => `const _isVNode = 'user_isVNode';\n__out.k${i} = () => _isVNode;` },
+  userMergeProps: { once: true, tpl: (i) => `const _mergeProps = 'user_mergeProps';\n__out.k${i} = () => [_mergeProps, <div {...s1} id="a" />];`, jsx: true },
+  userWithDirectives: { once: true, tpl: (i) => `const _withDirectives = 'user_withDirectives';\n__out.k${i} = () => [_withDirectives, <div v-foo={x} />];`, jsx: true },
+  userResolveComponent: { once: true, tpl: (i) => `const _resolveComponent = 'user_resolveComponent';\n__out.k${i} = () => [_resolveComponent, <Unb2 id="u" />];`, jsx: true },
+  userResolveDirective: { once: true, tpl: (i) => `function _resolveDirective() { return 'user_rd'; }\n__out.k${i} = () => [_resolveDirective(), <p v-bar={y} />];`, jsx: true },
+  userVModelText: { once: true, tpl: (i) => `let _vModelText = 'user_vModelText';\n__out.k${i} = () => [_vModelText, <input v-model={mv} />];`, jsx: true },
+  userTextVNode: { once: true, tpl: (i) => `var _createTextVNode = 'user_ctv';\n__out.k${i} = () => [_createTextVNode, <div>t{x}</div>];`, jsx: true },
+  userTransformOn: { once: true, tpl: (i) => `const _transformOn = 'user_transformOn';\n__out.k${i} = () => [_transformOn, <div on={{ click: h1 }} />];`, jsx: true },
   userEvent:   { once: true, tpl: (i) => `let $event = 'user_event';\n__out.k${i} = () => [$event, <input v-model={$event} />];\n__out.fire${i} = (v) => { const vn = __out.k${i}()[1]; vn.props['onUpdate:modelValue'](v); return $event; };`, jsx: true, fire: true },
   importCreateVNode: { once: true, tpl: (i) => `import { createVNode } from 'vue';\n__out.k${i} = () => typeof createVNode;` },
   importFragmentAlias: { once: true, group: 'fragname', tpl: (i) => `import { Fragment as _Fragment } from 'vue';\n__out.k${i} = () => <_Fragment>{x}{y}</_Fragment>;`, jsx: true },
@@ -165,7 +184,7 @@ const T_DC = new Set(['dcDupAny', 'dcInterUnknown', 'dcThreeArgs', 'dcThreeArgsT
 function itemHasJsx(item) { return item.t ? T_JSX.has(item.t) : item.d ? !!D[item.d].jsx : true; }
 function itemAugmentable(item) { return !!item.t && T_DC.has(item.t); }
 
-const PRELUDE = 'const { Comp, B, nsx, s1, h1, c1, x, y, c, f, g } = __env.bound;\nconst idf = (v) => v;\nclass Box { constructor(v) { this.v = v; } }\nlet xx = __env.bound.xx;\nlet yy = __env.bound.yy;\nlet mv = __env.mv0;\n';
+const PRELUDE = 'const { Comp, B, nsx, s1, h1, c1, x, y, c, f, g } = __env.bound;\nconst idf = (v) => v;\nconst idt = (s, ...v) => v[0];\nclass Box { constructor(v) { this.v = v; } }\nlet xx = __env.bound.xx;\nlet yy = __env.bound.yy;\nlet mv = __env.mv0;\n';
 
 function renderHistory(items, ts) {
   return (ts ? TS_PRELUDE : '') + PRELUDE + items.map((it, i) => itemSrc(it, i)).join('\n') + '\n';
